@@ -39,8 +39,8 @@ PROPS = {
                                                               (TL, "Minidyn.Tie.wellLocked_nonvacuous")], "rule": "pairs of client methods run concurrently under the race detector"},
     "C12": {"families": [("hist", "numbers", 400), ("num", None, 3000), ("update", None, 2500), ("match", None, 1500)], "obligations": P("Props.C12"), "rule": HIST_RULE},
     "C13": {"families": [("hist", "keys", 600)], "obligations": P("Props.C13"), "rule": HIST_RULE},
-    "C14": {"families": [("poke", None, 150)], "obligations": [(TS, "Minidyn.Tie.noSharing_generated_v1"), (TS, "Minidyn.Tie.noSharing_generated_v2"),
-                                                               (TS, "Minidyn.Tie.sharing_covers_mappers"), (TS, "Minidyn.Tie.no_singleton_leak")],
+    "C14": {"families": [("poke", None, 150)], "obligations": P("Props.C14") + [(TS, "Minidyn.Tie.noSharing_generated_v1"), (TS, "Minidyn.Tie.noSharing_generated_v2"),
+                                                               (TS, "Minidyn.Tie.sharing_covers_mappers"), (TS, "Minidyn.Tie.no_singleton_leak"), (TS, "Minidyn.Tie.copy_helpers_reviewed")],
             "rule": "every mutable location of generated value trees is written after a write / on a read result, then re-read"},
     "C15": {"families": [("hist", "emul", 600)], "obligations": P("Props.C15") + CLIENT_TIES, "rule": HIST_RULE},
     "C16": {"families": [("hist", "fail", 300), ("hist", "batch", 200), ("reserved", None, 1), ("match", None, 2000)], "obligations": P("Props.C16") + CLIENT_TIES, "rule": HIST_RULE},
